@@ -39,6 +39,22 @@ def inputs_only(block):
     return "\n".join(l for l in block.split("\n") if l.startswith(keep)) + "\n"
 
 
+def truncate_after_op(block, n):
+    """keep the case up to and including its n-th operation (sessions are sequential, so the
+    prefix reproduces what the monitor saw at op n)"""
+    out, k = [], 0
+    for line in block.split("\n"):
+        if line.startswith(("start ", "ev ", "stop", "version")):
+            k += 1
+        if k > n and not line.startswith("end"):
+            continue
+        if line.startswith("orc ") and k == n:
+            # the `orc` line that introduces op n+1
+            continue
+        out.append(line)
+    return "\n".join(out)
+
+
 def locate_crash(sh, hbin, kind, seed, n):
     """the harness died (the C API crashed the process): find the first case that does it"""
     for i in range(n):
@@ -131,7 +147,11 @@ def run_ffi(pid, tier, seed, replay, ctx):
                 cid = ws[3]
                 msg = " ".join(ws[4:])
                 key = f"{pid}:{re.sub(r'op [0-9]+', 'op N', msg)}"
-                mons.append((key, f"monitor {pid} failed on the implementation's observation: {msg}\n" + blocks.get(cid, "")))
+                m = re.match(r"op (\d+):", msg)
+                blk = blocks.get(cid, "")
+                if m:
+                    blk = truncate_after_op(blk, int(m.group(1)))
+                mons.append((key, f"monitor {pid} failed on the implementation's observation: {msg}\n" + blk))
             elif ws[0] == "badblocks":
                 dis.append(f"driver could not parse {ws[1]} case blocks of {name}")
         if seen != len(blocks):
